@@ -347,6 +347,10 @@ def explore(ctx) -> Report:
         rep.merge(r)
     rep.stats = stats
     rep.stats["requests"] = len(specs)
+    # async iterators with mixed plain / awaitable / failing items (implementation-side metamorphic stream)
+    from tools import c03_aiter_mix
+
+    c03_aiter_mix.run(rep, thorough=not quick)
     rep.rule = (
         "one case = one (request, sync/awaitable assignment, completion schedule) run of the implementation under the "
         "controlled event loop; requests from 6 seeded streams (general, lifetime shapes, mutations, many awaitables, abstract types with "
